@@ -831,3 +831,69 @@ func RunShutdownDirectedCase(seed int64, variant int) *HistResult {
 	res.Events = sys.Log.Len()
 	return res
 }
+
+// RunShutdownVsRemovingSaves (C13, meant for the -race build): a forced Shutdown walks over the jobs while saves keep
+// REMOVING finished jobs (a retention period that jobs cross one after the other makes every save delete a few). The
+// two paths must be synchronised with each other; the race detector is the oracle, this driver only produces the overlap
+// and reports how much of it there was.
+func RunShutdownVsRemovingSaves(seed int64) *HistResult {
+	res := &HistResult{Seed: seed, Situations: map[string]map[string]struct{}{}, Evaluations: map[string]int{}}
+	period := 25 * time.Millisecond
+	quick := definition.PipelineDef{Concurrency: 40, RetentionPeriod: period, SourcePath: "gen", Tasks: map[string]definition.TaskDef{"t": {Script: []string{"true"}}}}
+	block := definition.PipelineDef{Concurrency: 4, SourcePath: "gen", Tasks: map[string]definition.TaskDef{"t": {Script: []string{"true"}}}}
+	sys, err := core.NewSys(&definition.PipelinesDef{Pipelines: map[string]definition.PipelineDef{"quick": quick, "block": block}}, &core.RecStore{}, core.NewMemOutputStore())
+	if err != nil {
+		res.Inconclusive = err.Error()
+		return res
+	}
+	defer sys.Close()
+	defer DrainAll(sys)
+	// tasks of "quick" end by themselves; tasks of "block" stay inside the runner until they are told to stop
+	sys.Gates.Auto = func(job, pipeline, taskName string) (core.Outcome, time.Duration, bool) {
+		if pipeline == "quick" {
+			return core.Outcome{Kind: core.OutOK}, 0, true
+		}
+		return core.Outcome{}, 0, false
+	}
+	for i := 0; i < 4; i++ {
+		sys.Schedule(0, "block", nil, "u")
+	}
+	// finished jobs whose ages are spread over ~30 ms
+	for i := 0; i < 160; i++ {
+		sys.Schedule(0, "quick", nil, "u")
+		if i%8 == 7 {
+			time.Sleep(time.Millisecond)
+		}
+	}
+	var wg sync.WaitGroup
+	stop := make(chan struct{})
+	removed := 0
+	wg.Add(1)
+	go func() {
+		defer wg.Done()
+		last := len(sys.Snapshot(-1).Jobs)
+		for {
+			select {
+			case <-stop:
+				return
+			default:
+			}
+			sys.Save(1)
+			if n := len(sys.Snapshot(-1).Jobs); n < last {
+				removed++
+				last = n
+			}
+		}
+	}()
+	time.Sleep(period/2 + time.Duration(seed%7)*time.Millisecond)
+	ctx, cancel := context.WithCancel(context.Background())
+	cancel()
+	_ = sys.Shutdown(2, ctx, "forced while saves remove jobs")
+	time.Sleep(5 * time.Millisecond)
+	close(stop)
+	wg.Wait()
+	res.sit("C13", fmt.Sprintf("forced shutdown while saves remove jobs (saves that removed something: %d+)", min(removed, 3)))
+	res.Evaluations["C13"] += removed
+	res.Events = sys.Log.Len()
+	return res
+}
